@@ -22,6 +22,150 @@ def eb(rng):
     return rng.choice(B) if rng.random() < 0.8 else rng.randrange(0, 1025)
 
 
+# ---- correspondence: f_ok (model) vs "did the real function panic" (overflow checks on), on values straddling
+# the boundary of every predicate ----------------------------------------------------------------------------
+I32 = 2 ** 31
+EDGES_I = [0, 1, -1, 2, -2, 3, 1023, 1024, -1024, 2 ** 15 - 1, 2 ** 15, 2 ** 15 + 1, -2 ** 15, 46340, 46341, -46341, 2 ** 16 - 1, 2 ** 16, 2 ** 16 + 1,
+           2 ** 20, 2 ** 30 - 1, 2 ** 30, 2 ** 30 + 1, -2 ** 30, -2 ** 30 - 1, I32 - 2, I32 - 1, -I32 + 1, -I32]
+EDGES_U = [0, 1, 2, 3, 4, 5, 1023, 1024, 2 ** 15, 46340, 46341, 2 ** 16 - 1, 2 ** 16, 2 ** 16 + 1, 2 ** 20, 2 ** 30, I32 - 2, I32 - 1, I32, I32 + 1,
+           2 ** 32 - 2, 2 ** 32 - 1]
+
+
+def ei(rng, small=0.25):
+    k = rng.random()
+    if k < small:
+        return rng.randrange(-40, 41)
+    if k < 0.8:
+        v = rng.choice(EDGES_I) + rng.choice([0, 0, 0, 1, -1, 7, -7])
+        return max(-I32, min(I32 - 1, v))
+    return rng.randrange(-I32, I32)
+
+
+def eu(rng, small=0.25):
+    k = rng.random()
+    if k < small:
+        return rng.randrange(0, 41)
+    if k < 0.8:
+        return max(0, min(2 ** 32 - 1, rng.choice(EDGES_U) + rng.choice([0, 0, 0, 1, -1, 7, -7])))
+    return rng.randrange(0, 2 ** 32)
+
+
+def near(rng, c, spread=3):
+    return c + rng.randrange(-spread, spread + 1)
+
+
+def ci(v):
+    return max(-I32, min(I32 - 1, v))
+
+
+def cu(v):
+    return max(0, min(2 ** 32 - 1, v))
+
+
+def isqrt(n):
+    import math
+    return math.isqrt(n)
+
+
+def cases(tier, rng):
+    n = 2500 if tier == 'quick' else 60000
+    for _ in range(n):
+        a, b, c, d = ei(rng), ei(rng), ei(rng), ei(rng)
+        yield J('ok_point', rng.choice(['add', 'sub', 'mul', 'div', 'neg', 'abs', 'cmul', 'cdiv', 'addassign']), a, b, c, d)
+        # sums / differences / products right at the i32 boundary
+        x = ei(rng)
+        yield J('ok_point', 'add', x, 0, ci(near(rng, I32 - 1 - x) if x >= 0 else near(rng, -I32 - x)), 0)
+        yield J('ok_point', 'sub', 0, x, 0, ci(near(rng, x - I32 + 1) if x >= 0 else near(rng, x + I32)))
+        k = rng.choice([2, 3, 7, 255, 46340, 46341, 65536, -2, -3, -46341, -65536])
+        yield J('ok_point', 'mul', ci(near(rng, (I32 - 1) // abs(k)) * rng.choice([1, -1])), 1, k, 0)
+        yield J('ok_point', 'div', rng.choice([-I32, -I32 + 1, I32 - 1, a]), rng.choice([-I32, b]), rng.choice([-1, 0, 1, 2, c]), 0)
+        yield J('ok_point', rng.choice(['addsize', 'subsize']), a, b, eu(rng), eu(rng))
+        u1, u2, u3, u4 = eu(rng), eu(rng), eu(rng), eu(rng)
+        yield J('ok_size', rng.choice(['add', 'sub', 'mul', 'div', 'cmul', 'cdiv', 'sat']), u1, u2, u3, u4)
+        yield J('ok_size', 'add', u1, 0, cu(near(rng, 2 ** 32 - 1 - u1)), 0)
+        yield J('ok_size', 'sub', u1, u2, cu(near(rng, u1)), cu(near(rng, u2)))
+        k = rng.choice([2, 3, 255, 65535, 65536, 65537])
+        yield J('ok_size', 'mul', cu(near(rng, (2 ** 32 - 1) // k)), 1, k, 0)
+        # rectangles: corners near the i32 edge, extents near 2^31 / 2^32
+        r = (ei(rng), ei(rng), eu(rng), eu(rng))
+        r2 = (ei(rng), ei(rng), eu(rng), eu(rng))
+        xe = ci(rng.choice([I32 - 1, I32 - 2, 2 ** 30, 5, -I32]) - rng.choice([0, 1, 2, 1000]))
+        rb = (xe, ei(rng), cu(near(rng, I32 - 1 - xe)) if xe >= 0 else eu(rng), eu(rng))
+        for rr in (r, rb):
+            yield J('ok_rect', rng.choice(['br', 'center', 'withcenter', 'rows']), *rr)
+            yield J('ok_rect', 'contains', *rr, ci(rr[0] + rng.choice([-1, 0, 1])), ci(rr[1] + rng.choice([-1, 0, 1])))
+            yield J('ok_rect', 'anchor', *rr, rng.randrange(3), rng.randrange(3))
+            yield J('ok_rect', 'resized', *rr, eu(rng), eu(rng), rng.randrange(3), rng.randrange(3))
+            yield J('ok_rect', 'offset', *rr, rng.choice([ei(rng), rng.randrange(-130, 131), -I32, I32 - 1]))
+            yield J('ok_rect', 'styledbb', *rr, eu(rng), rng.randrange(3))
+            yield J('ok_rect', 'inter', *rr, *r2)
+            yield J('ok_rect', 'envelope', *rr, *r2)
+        yield J('ok_rect', 'corners', a, b, c, d)
+        yield J('ok_rect', 'corners', a, 0, ci(near(rng, a - I32 + 1) if a >= 0 else near(rng, a + I32)), 0)
+        # circle: diameter near 2^16 (u32 pow), distances near sqrt(2^31) / sqrt(2^30)
+        dd = rng.choice([0, 1, 2, 3, 4, 5, 100, 65535, 65536, 65537, 2 ** 20, eu(rng)])
+        cx, cy = rng.choice([0, 10, -1000, ei(rng)]), rng.choice([0, -10, 1000])
+        off = rng.choice([0, 5, 16383, 16384, 23169, 23170, 23171, 32767, 32768, 100000])
+        yield J('ok_circle_contains', cx, cy, dd, max(-I32, min(I32 - 1, cx + off)), cy + rng.choice([0, 3, off]))
+        # ellipse: w*h near 2^32 (u64 product of squares), w = h near 2^16, far points (b*x near 2^64)
+        w = rng.choice([1, 2, 3, 320, 1024, 65535, 65536, 65537, 2 ** 20, 2 ** 31, 2 ** 32 - 1, eu(rng)])
+        h = rng.choice([w, near(rng, (2 ** 32) // max(w, 1), 2), 240, eu(rng)])
+        h = max(0, min(2 ** 32 - 1, h))
+        far = rng.choice([0, 100, 2 ** 15, 2 ** 20, 2 ** 24, 2 ** 28, 2 ** 29, 2 ** 30 - 1])
+        yield J('ok_ellipse_contains', rng.choice([0, -500, 7]), 0, w, h, far, rng.choice([0, far, -far]))
+        yield J('ok_ellipse_contains', cx, 0, eu(rng), eu(rng), ei(rng), ei(rng))
+        # confine: radii sums near 2^32, products near 2^32
+        sides = [rng.choice([0, 1, 10, 100, 1024, 65535, 65536, 65537, 2 ** 31, eu(rng)]) for _ in range(2)]
+        rad = [rng.choice([0, 1, 5, 60, 1000, 65536, 2 ** 31 - 1, 2 ** 31, 2 ** 31 + 1, 2 ** 32 - 1, eu(rng)]) for _ in range(8)]
+        yield J('ok_confine', *sides, *rad)
+        rad = [rng.choice([0, 1, 5, 60, 1000, 4000, 65535, 65536, 65537]) for _ in range(8)]
+        yield J('ok_confine', rng.choice([10, 1000, 65535, 65536, 65537]), rng.choice([10, 1000, 65536]), *rad)
+        # lines: short lines next to the i32 edge (the run and its trailing update), long deltas (2 * delta)
+        ex, ey = rng.choice([I32 - 1, -I32, I32 - 20, -I32 + 20, 0, 2 ** 30]), rng.choice([I32 - 1, -I32, 0, 77])
+        dx, dy = rng.randrange(-12, 13), rng.randrange(-12, 13)
+        cl = lambda v: max(-I32, min(I32 - 1, v))
+        yield J('ok_line_points', cl(ex - dx), cl(ey - dy), ex, ey)
+        yield J('ok_line_points', ex, ey, cl(ex - dx), cl(ey - dy))
+        big = rng.choice([2 ** 30 - 1, 2 ** 30, 2 ** 30 + 1, I32 - 1, 2 ** 31 - 2])
+        yield J('ok_line_misc', rng.choice(['delta', 'midpoint']), rng.choice([0, -1, 1, -big]), ei(rng), rng.choice([big, 0, -big]), ei(rng))
+        yield J('ok_line_misc', rng.choice(['delta', 'midpoint']), a, b, c, d)
+        # thick line construction: (2w)^2 * len^2 near 2^63, len^2 near 2^31 (i32 length_squared), deltas near 2^30
+        L = rng.choice([1, 2, 5, 100, 1000, 23170, 32767, 32768, 32769, 46340, 46341, 46342, 2 ** 20, 2 ** 29, 2 ** 30 - 1, 2 ** 30, 2 ** 30 + 1])
+        L2 = L * L if rng.random() < 0.5 else 2 * L * L
+        ww = rng.choice([0, 1, 2, 30, 128, near(rng, isqrt((2 ** 63 - 1) // max(L2, 1)) // 2, 2), 2 ** 30, 2 ** 31 - 1, 2 ** 31, 2 ** 32 - 1, eu(rng)])
+        ww = max(0, min(2 ** 32 - 1, ww))
+        sx, sy = ci(rng.choice([0, 0, 5, -1000, I32 - 1 - L, -I32])), rng.choice([0, 3, -7])
+        if L2 == L * L:
+            yield J('ok_thick_new', sx, sy, cl(sx + L), sy, ww)
+            yield J('ok_thick_new', sy, sx, sy, cl(sx + L), ww)
+        else:
+            yield J('ok_thick_new', sx, sy, cl(sx + L), cl(sy + L), ww)
+            yield J('ok_thick_new', cl(sx + L), cl(sy + L), sx, sy, ww)
+        yield J('ok_thick_new', a, b, a, b, ww)
+        # triangles: products near 2^31 need coordinates near 2^15 / 2^16; query = vertex, centroid, or box corner
+        m = rng.choice([10, 1000, 23170, 32768, 46341, 65536, 2 ** 17])
+        tv = [rng.randrange(-m, m + 1) for _ in range(6)]
+        if rng.random() < 0.3:
+            tv[rng.randrange(6)] = rng.choice([m, -m])
+        q = rng.choice([(tv[0], tv[1]), (tv[4], tv[5]), ((tv[0] + tv[2] + tv[4]) // 3, (tv[1] + tv[3] + tv[5]) // 3),
+                        (min(tv[0], tv[2], tv[4]), max(tv[1], tv[3], tv[5])), (m + 5, 0)])
+        yield J('ok_tri_contains', *tv, *q)
+        if m <= 1000:
+            yield J('ok_tri_contains', *tv, rng.randrange(-m, m + 1), rng.randrange(-m, m + 1))
+        yield J('ok_line_height', rng.randrange(2), eu(rng), eu(rng))
+        p_ = rng.choice([100, 150, 400, 65536, 65537])
+        yield J('ok_line_height', 1, p_, cu(near(rng, (2 ** 32 - 1) // p_)))
+        bpp = rng.choice([1, 2, 4, 8, 16, 24])
+        yield J('ok_image_new', eu(rng), eu(rng), bpp)
+        yield J('ok_image_new', rng.choice([2 ** 32 - 1, 2 ** 31, 2 ** 30, 2 ** 29]), rng.choice([2 ** 32 - 1, 2 ** 31, 2 ** 30, 2 ** 29 + 1]), bpp)
+        yield J('ok_sub_image', rng.choice([1, 16]), rng.choice([0, 1, 3, 15, 16, -1, ei(rng)]), rng.choice([0, 1, 7, 8, -1, ei(rng)]),
+                rng.choice([0, 1, 5, 16, 2 ** 32 - 1, 2 ** 32 - 3, eu(rng)]), rng.choice([0, 1, 8, 2 ** 32 - 1, eu(rng)]))
+
+
+def trivial(line, res):
+    return res not in ('OK', 'PANIC')
+
+
 def search(tier, rng):
     n = 1500 if tier == 'quick' else 40000
     yield 'p_total ellipse 0 0 320 240 S 1 1 3 1'
